@@ -74,7 +74,8 @@ def to_unstable(gaf_line, reference):
             orient = nd
             continue
         if ":" in nd and "-" in nd:
-            tmp = nd.rstrip().split(":")
+            # the contig name itself may contain ":" (any printable character is allowed): the interval is what follows the LAST one
+            tmp = nd.rstrip().rsplit(":", 1)
             query_contig_name = tmp[0]
             (query_start, query_end) = tmp[1].rstrip().split("-")
             split_contig = True
